@@ -107,6 +107,16 @@ func (g *TxnGen) GenConds(t *rapid.T, tb Table, rows Rows, pool *Pool) []Cond {
 	for i := 0; i < n; i++ {
 		out = append(out, g.GenCond(t, tb, rows, pool))
 	}
+	if len(uuids) > 0 && rapid.IntRange(0, 3).Draw(t, "mixuuid") == 0 {
+		// a _uuid condition next to column conditions (possibly naming another row than
+		// the one the column values come from: a legal where that selects nothing)
+		c := Cond{Col: "_uuid", Fn: "==", Val: Scalar(UUID(rapid.SampledFrom(uuids).Draw(t, "whereuuid")))}
+		if rapid.Bool().Draw(t, "uuidfirst") {
+			out = append([]Cond{c}, out...)
+		} else {
+			out = append(out, c)
+		}
+	}
 	return out
 }
 
